@@ -204,6 +204,88 @@ def run(rep, tier="quick", replay=None, evidence_dir=None):
                    "only the %s accepts a %s schema for %s: what one side writes under this schema the other side refuses (or the reverse)" % (only, lab, "|".join(sm_)), "")
     rep.floor("C16.R6", "composite method/shape cells", n6, 44)
 
+    # ---------------------------------------------------------------- R7 / R8 the schema-less path (to_value / from_value)
+    # "the same bytes result from converting the Rust value to a generic value, resolving it against the schema and encoding
+    #  that, and the Rust value is recovered from the generically decoded value" - for scalars:
+    #  R7  for every (method m, shape S) the schema-aware serializer accepts, the Value variant the schema-less serializer
+    #      builds for m resolves against S (resolver cell not `never`); resolve + encode then give the decoder's tokens by
+    #      C08/C01, which are the schema-aware tokens by R1
+    #  R8  the Value variant the generic decoder builds for S is handed by the schema-less deserializer's method for m to a
+    #      visitor method of m's class (an i32 field is offered an integer, a String a string ...)
+    rep.rule("C16.R7", "schema-less serializer: the value it builds for a scalar resolves against every schema shape under which the schema-aware serializer accepts that scalar")
+    rep.rule("C16.R8", "schema-less deserializer: the value the generic decoder builds for a shape is offered to the visitor as the kind of scalar the schema-aware serializer accepted under that shape")
+    import restab
+    RT = restab.table(prog)
+    SL = "<serde::ser::Serializer as serde::Serializer>::serialize_"
+    SLD = "<serde::de::Deserializer<'de> as serde::Deserializer<'de>>::deserialize_"
+    IKEY = (1, (".input",))
+
+    def sl_builds(key, seen=()):
+        b = prog.bodies[key]
+        out = set(st["rv"]["variant"] for _, _, st in b.stmts() if st["s"] == "assign" and st["rv"]["r"] == "agg" and st["rv"].get("adt") == "types::Value")
+        for _, t in b.calls():
+            for n_ in callee_names(t["func"]):
+                if n_.startswith(SL) and n_ not in seen and n_ != key and n_ in prog.bodies:
+                    out |= sl_builds(n_, seen + (key,))
+        return out
+
+    def visit_table(m, depth=0):
+        b = prog.bodies.get(SLD + m)
+        if b is None:
+            return None
+        vp = w.vpes(b)
+        if IKEY not in vp.keys():
+            for _, t in b.calls():
+                for n_ in callee_names(t["func"]):
+                    if n_.startswith(SLD) and n_ != SLD + m and depth < 2:
+                        return visit_table(n_[len(SLD):], depth + 1)
+            return None
+        out = {}
+        for s_, reg in key_shapes(vp, IKEY):
+            vis = set(callee_names(b.blocks[x]["term"]["func"])[0].split("::")[-1] for x in reg if b.blocks[x]["term"]["t"] == "call" and "Visitor::visit" in callee_names(b.blocks[x]["term"]["func"])[0])
+            out.setdefault(s_[IKEY], set()).update(vis)
+        return out
+    INTS = {"visit_i8", "visit_i16", "visit_i32", "visit_i64", "visit_u8", "visit_u16", "visit_u32", "visit_u64"}
+    STRS = {"visit_str", "visit_borrowed_str", "visit_string"}
+    BYTES = {"visit_bytes", "visit_borrowed_bytes", "visit_byte_buf"}
+    CLASS = {"bool": {"visit_bool"}, "f32": {"visit_f32", "visit_f64"} | INTS, "f64": {"visit_f32", "visit_f64"} | INTS, "char": {"visit_char"} | STRS, "str": STRS,
+             "bytes": BYTES | STRS, "unit": {"visit_unit"}, "i128": INTS | {"visit_i128", "visit_u128"}, "u128": INTS | {"visit_i128", "visit_u128"}}
+    for m_ in ("i8", "i16", "i32", "i64", "u8", "u16", "u32", "u64"):
+        CLASS[m_] = INTS
+    DUAL = {"str": ["str", "string"], "bytes": ["bytes", "byte_buf"]}
+    n7 = n8 = 0
+    for m in SCALAR:
+        if SL + m not in prog.bodies:
+            rep.anchor_error("C16.R7", SL + m)
+            continue
+        V = sl_builds(SL + m)
+        stab = tabs.get(("serializer", m, "serialize_" + m), {})
+        for S in sorted(stab):
+            if S == "Union":
+                continue
+            cells = [(v, RT["cells"].get((v, S)) or RT["cells"].get((v, S.split("(")[0]))) for v in sorted(V)]
+            n7 += 1
+            rep.ob("C16.R7", "serde %s under %s: the schema-less value (%s) resolves against the schema" % (m, S, "|".join(sorted(V))), any(c is not None and c["cls"] != "never" for _, c in cells),
+                   "to_value gives Value::%s for this scalar, Value::resolve has no success path for it under %s, while the schema-aware serializer writes it: the two serde paths disagree" % ("|".join(sorted(V)), S),
+                   prog.bodies[SL + m].loc())
+            # R8
+            built = set()
+            for c in wiretab.refine(S, dec.keys()):
+                built |= set(dec[c].get("values_ok") or [])
+            for dm in DUAL.get(m, [m]):
+                vt = visit_table(dm)
+                if vt is None:
+                    rep.anchor_error("C16.R8", SLD + dm)
+                    continue
+                for v in sorted(built):
+                    n8 += 1
+                    vis = vt.get(v, set())
+                    rep.ob("C16.R8", "serde %s under %s: from_value offers Value::%s to deserialize_%s as %s" % (m, S, v, dm, "/".join(sorted(CLASS[m] & vis)) or "the scalar's kind"), bool(vis) and vis <= CLASS[m],
+                           "the generic decoder builds Value::%s for a %s datum; deserialize_%s hands it to %s, which a %s target does not accept: the value written by the schema-aware serializer is not recovered through the generic path" % (v, S, dm, sorted(vis) or "no visitor method", m),
+                           prog.bodies[SLD + dm].loc() if SLD + dm in prog.bodies else "")
+    rep.floor("C16.R7", "scalar method/shape cells of the schema-less serializer", n7, 40)
+    rep.floor("C16.R8", "scalar method/shape/value cells of the schema-less deserializer", n8, 40)
+
     # ---------------------------------------------------------------- R3 / R4 imports
     import c13
     sub = common.Report("C13", tier, 0)
